@@ -59,7 +59,7 @@ RULE = ("qsieve64::qsieve directly on u64: every reachable n (no prime factor <=
 # instead of being reported as (known) findings: for a stand-alone `./check C03_QS64` before the entries exist in known_findings.json
 ACCEPT_UNGUARDED = os.environ.get("QS64_ACCEPT_UNGUARDED") == "1"
 FINDING_EVEN = "qs64-direct-even-n"
-FINDING_TINY = "qs64-direct-x-equals-n"
+FINDING_TINY = "qs64-direct-tiny-n-unreduced-operand"
 FINDING_NK = "qs64-direct-n-equals-k"
 
 W = 1 << 64
@@ -293,7 +293,7 @@ def _oracle(case, ans):
         if n % 2 == 0:
             return (f"qsieve({n}) panicked: even n, ZmodN::new asserts an odd modulus inside final_step (direct call only; factor() removes the factor 2 first; "
                     f"the unit test skips even n: 'Modular arithmetic will fail')")
-        return (f"qsieve({n}) panicked (checked profile): a relation with x = n reaches ZmodN::mul unreduced (final_step reduces only x > n), debug_assert!(x < n); "
+        return (f"qsieve({n}) panicked (checked profile): an unreduced operand reaches ZmodN::mul, debug_assert!(x < n): relations::combine starts a new product chunk with a factor-base prime p >= n (x = n itself is reduced since fix 9a443f1); "
                 f"direct call on a tiny n only: for inputs of factor() the value n(n-k) has a cofactor >= 211^2 > maxlarge")
     t = res.split(" ")
     if t[0] == "some" and len(t) == 3:
@@ -372,7 +372,7 @@ CLAIM = ("Lean theorems about the executable model of qsieve64::qsieve (checked 
          "admissible_of_guards, admissible_not_square) and every 1 <= k < 30 - no panic site is reachable before final_step: set-up arithmetic, "
          "FBase::new64, the i64 candidate arithmetic, Dividers, the u8 sieve accumulator (<= 177 < 256), the target computation, termination of trial "
          "division, combine (qs64_no_panic_of_nonsquare, qs64_no_panic); the hypothesis is needed for the model's contract on k "
-         "(qs64_square_nk_counterexample). Panics INSIDE final_step on inputs factor() never passes (even n; x = n for tiny n in the checked profile) "
+         "(qs64_square_nk_counterexample). Panics INSIDE final_step on inputs factor() never passes (even n; a factor-base prime >= n for tiny n in the checked profile) "
          "are recorded findings; no-panic of final_step on qsieve's relations is explored, not proved.")
 LEVEL_NOTE = ("The theorems are about the model; the K stream (qs64_rels: factor base, square roots and every relation; qs64: the result, the model "
               "being given the real multiplier and the real kernel vectors) ties it to the code in both profiles.")
